@@ -147,6 +147,59 @@ fn run_mpsc(case: &Value) -> Value {
                     None => json!({"dis": true}),
                 }
             }
+            "y" => {
+                // try_send by task t
+                let t = &tasks[l[1].as_u64().unwrap() as usize];
+                match t.sender.as_ref() {
+                    None => json!({"dis": true}),
+                    Some(s) => {
+                        let r = match s.try_send(l[2].as_u64().unwrap() as u32) {
+                            Ok(()) => "S",
+                            Err(mpsc::TrySendError::Full(_)) => "F",
+                            Err(mpsc::TrySendError::Closed(_)) => "C",
+                        };
+                        json!({"y": r, "w": drain(&log)})
+                    }
+                }
+            }
+            "n" => {
+                // task t clones its Sender for a new task running the given program
+                let src = l[1].as_u64().unwrap() as usize;
+                match tasks[src].sender.as_ref() {
+                    None => json!({"dis": true}),
+                    Some(s) => {
+                        let cloned: mpsc::Sender<u32> = (**s).clone();
+                        let rest: VecDeque<Vec<u32>> = l[2]
+                            .as_array()
+                            .unwrap()
+                            .iter()
+                            .map(|st| st.as_array().unwrap().iter().map(|x| x.as_u64().unwrap() as u32).collect())
+                            .collect();
+                        let id = tasks.len() as i64;
+                        let mut t = STask {
+                            sender: Some(Rc::new(cloned)),
+                            cur: Vec::new(),
+                            rest,
+                            waker: Waker::from(Arc::new(LogWaker { id, log: log.clone() })),
+                        };
+                        t.advance();
+                        tasks.push(t);
+                        json!({"w": drain(&log)})
+                    }
+                }
+            }
+            "z" => {
+                // task t drops its k-th outstanding send future (keeps the Sender)
+                let t = &mut tasks[l[1].as_u64().unwrap() as usize];
+                let k = l[2].as_u64().unwrap() as usize;
+                if t.sender.is_none() || k >= t.cur.len() {
+                    json!({"dis": true})
+                } else {
+                    drop(t.cur.remove(k));
+                    t.advance();
+                    json!({"w": drain(&log)})
+                }
+            }
             "c" => match rx.as_mut() {
                 None => json!({"dis": true}),
                 Some(r) => {
